@@ -5,6 +5,7 @@ import FP.Proofs.DecompExample
 import FP.Proofs.FlowDecompExists
 import FP.Proofs.DecompManyPaths
 import FP.Proofs.DecompConstraints
+import FP.Proofs.GreedyShortcut
 /-!
 # C03 — MinFlowDecomp (DAG) finds a decomposition with the fewest paths
 
@@ -275,5 +276,85 @@ example : lowerboundK { flows := [5, 5], width := 1, ignoreEmpty := false, useMg
     = .value 1 := by decide +kernel
 example : (MFD.solve { flows := [3, 2, 3, 2], width := 2 } 4 1
     (fun k => if k < 2 then .infeasible else .optimal)).solved = some 2 := by decide +kernel
+
+/-! ### the greedy shortcut of `kFlowDecomp` (`optimize_with_greedy`, used by every k-model `MinFlowDecomp` builds)
+
+`x : GSIn` = the internal DAG in `edges()` order with its flow, the topological order
+`max_bottleneck_path` iterates in (oracle, contract `IsTopo`), `k`, the three guards of the constructor
+(`optimize_with_greedy`, no ignored edges, `satisfies_flow_conservation`), the subpath constraints with the
+length each edge counts and the coverage fraction. `greedyShortcut x = some (paths, weights)` iff the
+constructor stores that solution and marks the model solved without calling the solver. -/
+
+/-- **the shortcut returns a decomposition into exactly `k` paths.** Distinct edges, non-negative flow
+conserved at every inner node: when the shortcut fires, `k ≥ 1`, it returns `k` paths and `k` weights that
+form a decomposition of the flow into source-to-sink paths; they are the `n ≤ k` paths peeled by
+`decompose_using_max_bottleneck` (C17 `greedy_exact`) with their positive weights followed by `k - n`
+copies of the first path with weight 0 — all weights positive when `n = k`. -/
+theorem greedy_shortcut_sound (x : GSIn) (hnd : x.g.edges.Nodup) (htopo : IsTopo x.g.edges x.topo)
+    (hnn : ∀ e ∈ x.g.edges, 0 ≤ x.f e) (hc : Conserving x.g x.f)
+    (ps : List (List Node)) (ws : List Rat) (h : greedyShortcut x = some (ps, ws)) :
+    ps.length = x.k ∧ ws.length = x.k ∧ 1 ≤ x.k ∧ IsPathDecomp x.g x.f (ps.zip ws) ∧
+    ∃ r, decompose x.g x.f x.topo = .done r ∧ 1 ≤ r.paths.length ∧ r.paths.length ≤ x.k ∧
+      IsPathDecomp x.g x.f r.paths ∧ (∀ pw ∈ r.paths, 0 < pw.2) ∧
+      ps.take r.paths.length = r.paths.map (·.1) ∧ ws.take r.paths.length = r.paths.map (·.2) ∧
+      (∀ w ∈ ws.drop r.paths.length, w = 0) ∧ (r.paths.length = x.k → ∀ w ∈ ws, 0 < w) :=
+  FP.greedy_shortcut_sound_proof x hnd htopo hnn hc ps ws h
+
+/-- **the shortcut's answer is minimum.** `lb` = the lower bound `MinFlowDecomp` starts its search at
+(width, enters by its contract: no decomposition has fewer than `lb` paths — `lb_antichain_valid`), `k ≤ lb`
+(the first k-model is built with `k = lb`): when the shortcut fires, its `k` paths with `k` positive weights
+decompose the flow and no decomposition with fewer than `k` paths exists. -/
+theorem greedy_shortcut_minimal (x : GSIn) (hnd : x.g.edges.Nodup) (htopo : IsTopo x.g.edges x.topo)
+    (hnn : ∀ e ∈ x.g.edges, 0 ≤ x.f e) (hc : Conserving x.g x.f) (lb : Nat)
+    (hlb : ∀ D, IsPathDecomp x.g x.f D → lb ≤ D.length) (hk : x.k ≤ lb)
+    (ps : List (List Node)) (ws : List Rat) (h : greedyShortcut x = some (ps, ws)) :
+    IsPathDecomp x.g x.f (ps.zip ws) ∧ (ps.zip ws).length = x.k ∧ (∀ w ∈ ws, 0 < w) ∧
+    (∀ D, IsPathDecomp x.g x.f D → x.k ≤ D.length) :=
+  FP.greedy_shortcut_minimal_proof x hnd htopo hnn hc lb hlb hk ps ws h
+
+/-- **skipping the solver changes nothing.** Every solver script that answers `optimal` whenever a
+decomposition into `j` paths exists makes the search `range(k, hi)` return `k`, the number of paths the
+shortcut returns. -/
+theorem shortcut_agrees_with_search (x : GSIn) (hnd : x.g.edges.Nodup) (htopo : IsTopo x.g.edges x.topo)
+    (hnn : ∀ e ∈ x.g.edges, 0 ≤ x.f e) (hc : Conserving x.g x.f)
+    (σ : Nat → Status) (hσ : ∀ j, (∃ D, IsPathDecomp x.g x.f D ∧ D.length = j) → σ j = .optimal)
+    (hi : Nat) (hhi : x.k < hi)
+    (ps : List (List Node)) (ws : List Rat) (h : greedyShortcut x = some (ps, ws)) :
+    (stopSearch σ x.k hi).solved = some (ps.zip ws).length :=
+  FP.shortcut_agrees_with_search_proof x hnd htopo hnn hc σ hσ hi hhi ps ws h
+
+/-- **the shortcut respects the subpath constraints.** Coverage fraction 1 (edges count 1, or any positive
+lengths): when the shortcut fires every subpath constraint is contained in one of the returned paths - the
+`constraints` clause of `IsDecomp`. -/
+theorem greedy_shortcut_constraints (x : GSIn) (hcov : x.coverage = 1)
+    (hlen : ∀ con ∈ x.constraints, ∀ el ∈ con, 0 < el.2)
+    (ps : List (List Node)) (ws : List Rat) (h : greedyShortcut x = some (ps, ws)) :
+    ∀ con ∈ x.constraints, ∃ p ∈ ps, ∀ el ∈ con, el.1 ∈ walkEdges p :=
+  FP.greedy_shortcut_constraints_proof x hcov hlen ps ws h
+
+/-- the diamond with flows 3/2: fires for `k = 2` … -/
+def gsDiamond (k : Nat) : GSIn := { g := C17Example.d, f := C17Example.dflow, topo := C17Example.dtopo, k := k }
+
+example : greedyShortcut (gsDiamond 2) = some ([["s", "a", "t"], ["s", "b", "t"]], [3, 2]) := by decide +kernel
+/-- … pads for `k = 3` … -/
+example : greedyShortcut (gsDiamond 3) =
+    some ([["s", "a", "t"], ["s", "b", "t"], ["s", "a", "t"]], [3, 2, 0]) := by decide +kernel
+/-- … does not fire for `k = 1`, nor with `optimize_with_greedy = False`, nor when a subpath constraint
+(here the pair of edges `s→a`, `b→t`, on no common path) is not covered by a greedy path … -/
+example : greedyShortcut (gsDiamond 1) = none := by decide +kernel
+example : greedyShortcut { gsDiamond 2 with optGreedy := false } = none := by decide +kernel
+example : greedyShortcut { gsDiamond 2 with constraints := [[(("s", "a"), 1), (("b", "t"), 1)]] } = none := by
+  decide +kernel
+/-- … nor on the all-zero flow (fix 7138f39) -/
+example : greedyShortcut { gsDiamond 2 with f := fun _ => 0 } = none := by decide +kernel
+
+/-- non-vacuity: the diamond with the constraint `s→a, a→t` fires -/
+example : greedyShortcut { gsDiamond 2 with constraints := [[(("s", "a"), 1), (("a", "t"), 1)]] } =
+    some ([["s", "a", "t"], ["s", "b", "t"]], [3, 2]) := by decide +kernel
+
+/-- the hypotheses of `greedy_shortcut_sound` are satisfiable: the diamond -/
+example : IsPathDecomp C17Example.d C17Example.dflow [(["s", "a", "t"], 3), (["s", "b", "t"], 2)] :=
+  (greedy_shortcut_sound (gsDiamond 2) (by decide) C17Example.d_topo' C17Example.d_nonneg
+    C17Example.d_conserving [["s", "a", "t"], ["s", "b", "t"]] [3, 2] (by decide +kernel)).2.2.2.1
 
 end FP.Props.C03
